@@ -30,8 +30,8 @@ def machine_rows(desc):
         arch = "(mkArch %d %d %s %s %d %d %s %d %s)" % (d["Rsize"], d["R"], C.cq_N(d["N"]), C.cq_N(d["M"]), d["L"], d["O"],
                                                        C.cq_list([C.cq_string(n) + "%string" for n in d["Ops"] or []]), d["WordSize"], MODES.get(d["Mode"], "Ha"))
         doms.append("(%s, %s)" % (arch, C.cq_list([bits_term(w) for w in d["Rom"] or []])))
-        datas.append(len(d.get("Data") or []))
-    return "(%d, %s, %s, %s)" % (desc["rsize"], C.cq_list(doms), simlib.topo_term(desc["topo"]), C.cq_list([str(x) for x in datas]))
+        datas.append(C.cq_list([str(len(w)) for w in (d.get("Data") or [])]))      # the width of every ROM data word
+    return "(%d, %s, %s, %s)" % (desc["rsize"], C.cq_list(doms), simlib.topo_term(desc["topo"]), C.cq_list(datas))
 
 
 def unfit_sources(rnd):
@@ -168,9 +168,10 @@ def run(res, a):
     for i in range(0, len(rows), shard):
         bodies.append("From Coq Require Import List NArith Bool Arith String.\nFrom BM Require Import Base.Bits Isa.Encode Net.Topo Front.Wf.\n"
                       "From BMGen Require Import GenLayout.\nImport ListNotations.\n"
-                      "Definition diag (x : nat * list (arch * list bstr) * bm * list nat) : list nat :=\n"
+                      "Definition diag (x : nat * list (arch * list bstr) * bm * list (list nat)) : list nat :=\n"
                       "  let '(rs, doms, t, datas) := x in\n"
-                      "  flat_map (fun dn => if List.length (snd (fst dn)) + snd dn <=? 2 ^ obits (fst (fst dn)) then [] else [6]) (combine doms datas) ++\n"
+                      "  flat_map (fun dn => (if List.length (snd (fst dn)) + List.length (snd dn) <=? 2 ^ obits (fst (fst dn)) then [] else [6]) ++\n"
+                      "                      (if forallb (fun w => Nat.eqb w (max_word table (fst (fst dn)))) (snd dn) then [] else [10])) (combine doms datas) ++\n"
                       "  (if wf_bmb t then [] else [1]) ++\n"
                       "  flat_map (fun d => (if sorted_strict (ops (fst d)) then [] else [2]) ++ (if forallb (wf_word table (fst d)) (snd d) then [] else [3]) ++\n"
                       "                     (if List.length (snd d) <=? 2 ^ obits (fst d) then [] else [4]) ++ (if Nat.eqb (rsize (fst d)) rs then [] else [5])) doms ++\n"
@@ -181,7 +182,8 @@ def run(res, a):
     names = {1: "the bond graph is not well formed", 2: "an opcode list is not sorted and duplicate-free", 3: "a ROM word has the wrong width or does not decode "
              "to an in-range instruction of its processor", 4: "a ROM is larger than 2^O", 5: "a domain's register size differs from the machine's",
              6: "a ROM cannot hold its program and data words (more than 2^O)", 7: "a processor has an empty ROM (no word at the reset address)",
-             8: "a machine output is not driven by anything", 9: "wf_bondmachine is false"}
+             8: "a machine output is not driven by anything", 9: "wf_bondmachine is false",
+             10: "a ROM data word does not have the architecture's word width"}
     hist = {}
     for o in C.eval_cases_parallel("C16", bodies, timeout=3000):
         for codes in o["M"]:
